@@ -96,19 +96,17 @@ def nondet_int_of_text(src, lo, hi, L):
         key = (lo, hi)
         src.ints[key] = (ok, val)
     ok, val = src.ints[key]
+    if isinstance(L, int) and L <= 0:
+        raise ValueError("invalid literal for int() with base 10: ''")
     if not ok:
         raise ValueError("invalid literal for int() with base 10: <abstract>")
-    # representable in L characters: -(10^(L-1)-1) .. 10^L-1 ; L is small (<= 4) at all call sites
-    if isinstance(L, int):
-        if L <= 0:
-            raise ValueError("invalid literal for int() with base 10: ''")
-        core.assume(val <= 10 ** L - 1)
-        core.assume(val >= -(10 ** (L - 1) - 1))
-    else:
-        core.assume(L >= 1)
-        for k in range(1, 6):
-            core.assume(core.s_implies(s_eq(L, k), s_and(val <= 10 ** k - 1, val >= -(10 ** (k - 1) - 1))))
-        core.assume(L <= 5)
+    # representable in L characters: -(10^(L-1)-1) .. 10^L-1 ; L is small at all call sites
+    if not isinstance(L, int):
+        L = core.cur().concretize(L, limit=12)
+    if L <= 0:
+        raise ValueError("invalid literal for int() with base 10: ''")
+    core.assume(val <= 10 ** L - 1)
+    core.assume(val >= -(10 ** (L - 1) - 1))
     return val
 
 
@@ -528,7 +526,9 @@ class BinasciiStub:
         if hasattr(x, '__shexlify__'):
             return x.__shexlify__()
         if isinstance(x, Rope):
-            raise Unsupported('hexlify of abstract bytes')
+            if x.kind != 'b':
+                raise TypeError('a bytes-like object is required')
+            return mk('b', [rope.HexP(x)])
         return _binascii.hexlify(x, *a)
 
     b2a_hex = hexlify
@@ -590,12 +590,23 @@ class DateTimeLike(metaclass=_DTMeta):
                 if at.fmt == fmt:
                     return at.d
                 raise ValueError('time data does not match format [abstract token, other format]')
-            # abstract text: nondeterministic -- ValueError or some opaque datetime
+            # abstract text: nondeterministic -- ValueError or some opaque datetime (memoised per text slice)
             ex = core.cur()
+            memo = ex.__dict__.setdefault('_strptime_memo', [])
+            if ex.__dict__.get('_strptime_path') != ex.stats.paths:
+                memo.clear()
+                ex._strptime_path = ex.stats.paths
+            for r, f, res in memo:
+                if f == fmt and rope._same_structure(r, text):
+                    if res is None:
+                        raise ValueError('time data does not match format [abstract]')
+                    return res
             ok = ex.fresh_bool('strptime_ok')
-            if not ok:
+            res = SymDate(ex._uniq('parsed_date')) if ok else None
+            memo.append((text, fmt, res))
+            if res is None:
                 raise ValueError('time data does not match format [abstract]')
-            return SymDate(ex._uniq('parsed_date'))
+            return res
         return _datetime.datetime.strptime(text, fmt)
 
     @staticmethod
